@@ -1443,6 +1443,18 @@ function runWorld(job) {
       if (/^[\w$]+ is not iterable/.test(String(e && e.message))) violation('C11', 'lvalue_path_expression_throws', `step ${step}: the generated code throws while building an l-value path: ${String(e.message)}`)
       ended = 'op_throws'
       bump(ctx, 'discard.op_throws')
+      bump(ctx, 'probe.op_throws: ' + String(e && e.message).replace(/[0-9]+/g, 'N').slice(0, 70))
+      // an update that throws where a creation with the same data works left the tree behind
+      if (!res.violation && kind !== 'model' && kind !== 'child_set') {
+        let freshOk = false
+        try {
+          freshTree(job, groupList, curD())
+          freshOk = true
+        } catch (e2) {
+          freshOk = false
+        }
+        if (freshOk) violation('C06', 'update_throws', `step ${step} (${kind}): the update throws (${String(e && e.message).slice(0, 160)}) while a fresh creation with the same data succeeds\n data: ${enc(curD()).slice(0, 500)}`)
+      }
       res.errorMessage = String(e && e.stack ? e.stack : e).slice(0, 400)
       break
     }
